@@ -354,8 +354,9 @@ func (sc *scn) waitRest(until func() bool) rest {
 		}
 		for _, g := range r.har {
 			ok = ok && g.Parked()
-			// a pusher with a short timeout has a timer armed: not at rest
-			if sc.spec.TimeoutMs < 1000 && g.In("tasklane.(*TaskLane).PushTask") {
+			// a pusher with a short timeout that is parked in a select has a timer armed: not at
+			// rest. (Parked in a plain channel send no timer can release it: that is at rest.)
+			if sc.spec.TimeoutMs < 1000 && g.State == "select" && g.In("tasklane.(*TaskLane).PushTask") {
 				ok = false
 			}
 		}
